@@ -1,0 +1,111 @@
+//go:build verif
+
+package util
+
+// Contracts for the verification machinery in /verif (build tag "verif").
+// SliceBuffer: a cursor i over the byte slice s; reads panic (exceptional exit) past the end.
+
+// io.EOF is a non-nil sentinel error
+//@ axiom io_eof_nonnil: io.EOF != nil
+
+//@ func binary.littleEndian.Uint16(self, b) (r)
+//@   trusted library contract
+//@   ensures le: r == uint16(b[0]) | uint16(b[1]) << 8
+
+//@ func binary.littleEndian.Uint32(self, b) (r)
+//@   trusted library contract
+//@   ensures le: r == uint32(b[0]) | uint32(b[1]) << 8 | uint32(b[2]) << 16 | uint32(b[3]) << 24
+
+//@ func binary.littleEndian.Uint64(self, b) (r)
+//@   trusted library contract
+//@   ensures le: r == uint64(b[0]) | uint64(b[1]) << 8 | uint64(b[2]) << 16 | uint64(b[3]) << 24 | uint64(b[4]) << 32 | uint64(b[5]) << 40 | uint64(b[6]) << 48 | uint64(b[7]) << 56
+
+//@ func SliceBuffer.ReadByte1
+//@   arith bv
+//@   properties C03
+//@   requires nonnil: s != nil
+//@   modifies s.i
+//@   ensures read: result1 == nil ==> result0 == old(s.s[s.i]) && s.i == old(s.i) + 1 && 0 <= old(s.i) && old(s.i) < len(s.s)
+//@   ensures eof: result1 != nil ==> s.i == old(s.i)
+
+//@ func SliceBuffer.ReadByte
+//@   arith bv
+//@   properties C03
+//@   requires nonnil: s != nil
+//@   modifies s.i
+//@   ensures read: result == old(s.s[s.i]) && s.i == old(s.i) + 1 && 0 <= old(s.i) && old(s.i) < len(s.s)
+
+//@ func SliceBuffer.Slice
+//@   arith bv
+//@   properties C03
+//@   requires nonnil: s != nil
+//@   requires cursor_nonneg: 0 <= s.i
+//@   requires cursor_in: s.i <= len(s.s)
+//@   requires n_nonneg: 0 <= n
+//@   modifies s.i
+//@   ensures window: result == old(s.s[s.i : s.i + n]) && s.i == old(s.i) + n && s.i <= len(s.s)
+
+//@ func Uint24
+//@   arith bv
+//@   properties C03
+//@   ensures le: result == uint32(b[0]) | uint32(b[1]) << 8 | uint32(b[2]) << 16
+
+//@ func SliceBuffer.ReadUint16
+//@   arith bv
+//@   properties C03
+//@   requires nonnil: s != nil
+//@   requires sane: 0 <= s.i && s.i <= len(s.s)
+//@   modifies s.i
+//@   ensures le: result == uint16(old(s.s[s.i])) | uint16(old(s.s[s.i + 1])) << 8
+//@   ensures adv: s.i == old(s.i) + 2 && s.i <= len(s.s)
+
+//@ func SliceBuffer.ReadUint24
+//@   arith bv
+//@   properties C03
+//@   requires nonnil: s != nil
+//@   requires sane: 0 <= s.i && s.i <= len(s.s)
+//@   modifies s.i
+//@   ensures le: result == uint32(old(s.s[s.i])) | uint32(old(s.s[s.i + 1])) << 8 | uint32(old(s.s[s.i + 2])) << 16
+//@   ensures adv: s.i == old(s.i) + 3 && s.i <= len(s.s)
+
+//@ func SliceBuffer.ReadUint32
+//@   arith bv
+//@   properties C03
+//@   requires nonnil: s != nil
+//@   requires sane: 0 <= s.i && s.i <= len(s.s)
+//@   modifies s.i
+//@   ensures le: result == uint32(old(s.s[s.i])) | uint32(old(s.s[s.i + 1])) << 8 | uint32(old(s.s[s.i + 2])) << 16 | uint32(old(s.s[s.i + 3])) << 24
+//@   ensures adv: s.i == old(s.i) + 4 && s.i <= len(s.s)
+
+//@ func SliceBuffer.seek
+//@   arith bv
+//@   properties C03
+//@   requires nonnil: s != nil
+//@   modifies s.i
+//@   ensures relative: result1 == nil && whence == 1 ==> s.i == old(s.i) + int(offset) && result0 == int64(old(s.i)) + offset
+//@   ensures absolute: result1 == nil && whence == 0 ==> s.i == int(offset)
+//@   ensures failed: result1 != nil ==> s.i == old(s.i)
+
+//@ func SliceBuffer.Seek
+//@   arith bv
+//@   properties C03
+//@   requires nonnil: s != nil
+//@   modifies s.i
+//@   ensures relative: whence == 1 ==> s.i == old(s.i) + int(offset)
+//@   ensures absolute: whence == 0 ==> s.i == int(offset)
+
+//@ func binary.bigEndian.Uint32(self, b) (r)
+//@   trusted library contract
+//@   ensures be: r == uint32(b[3]) | uint32(b[2]) << 8 | uint32(b[1]) << 16 | uint32(b[0]) << 24
+
+//@ func SliceBuffer.ReadUint64
+//@   arith bv
+//@   properties C03
+//@   requires nonnil: s != nil
+//@   requires sane: 0 <= s.i && s.i <= len(s.s)
+//@   modifies s.i
+//@   ensures adv: s.i == old(s.i) + 8 && s.i <= len(s.s)
+
+//@ func PanicIfErr
+//@   trusted panics when err is non-nil (exceptional exit), returns otherwise
+//@   ensures returned_means_nil: err == nil
